@@ -479,6 +479,26 @@ func c08CLI(c *gen.Ctx) error {
 			id++
 		}
 	}
+	// a file line may be of any length (64 KiB, the default token limit of line scanners, is no
+	// limit of the format): a long comment or a long pattern followed by further patterns
+	for _, n := range []int{65535, 65536, 70000, 200000} {
+		for _, comment := range []bool{true, false} {
+			j := mk(flags[id%len(flags)], []int{2, 0}, id)
+			long := strings.Repeat("y", n)
+			if comment {
+				long = "#" + long[1:]
+			} else {
+				long = fmt.Sprintf("zz%d/long/", id) + long
+			}
+			lines := append([]string{j.Files[0][0], long}, j.Files[0][1:]...)
+			j.Files[0] = lines
+			jobs = append(jobs, j)
+			id++
+			if !c.Thorough() && n == 65535 {
+				break
+			}
+		}
+	}
 	// also: empty files around a plain pattern
 	{
 		j := mk("known-failing", []int{0}, id)
